@@ -479,4 +479,60 @@ theorem C34_counterexample_delete_absent :
 /-- the repaired `delete_node` leaves that state alone -/
 example : deleteNode aggStd leftover 1000 false = some (leftover, .badNodeIdUnknown) := by decide
 
+theorem serveItems_go_length {ι α : Type} (step : NS → ι → Option (NS × α)) :
+    ∀ (l : List ι) (s s' : NS) (acc rs : List α),
+      serveItems.go step s l acc = .results s' rs → rs.length = acc.length + l.length := by
+  intro l
+  induction l with
+  | nil => intro s s' acc rs h; simp [serveItems.go] at h; rw [← h.2]; simp
+  | cons it rest ih =>
+    intro s s' acc rs h
+    unfold serveItems.go at h
+    cases hs : step s it with
+    | none => rw [hs] at h; cases h
+    | some pr =>
+      obtain ⟨s1, r⟩ := pr
+      rw [hs] at h
+      have := ih s1 s' (r :: acc) rs h
+      simp at this ⊢; omega
+
+/-- **Request level**: a service call either faults without looking at any item — exactly when the
+list is missing, empty or longer than the limit — or answers with one result per item. -/
+theorem serveItems_spec {ι α : Type} (limit : Nat) (step : NS → ι → Option (NS × α)) (s : NS)
+    (items : Option (List ι)) :
+    (∀ st, serveItems limit step s items = .fault st →
+      (st = .badNothingToDo ∧ (items = none ∨ items = some [])) ∨
+      (st = .badTooManyOperations ∧ ∃ l, items = some l ∧ limit < l.length)) ∧
+    (∀ s' rs, serveItems limit step s items = .results s' rs →
+      ∃ l, items = some l ∧ l ≠ [] ∧ l.length ≤ limit ∧ rs.length = l.length) := by
+  unfold serveItems
+  cases items with
+  | none => exact ⟨fun st h => by cases h; exact Or.inl ⟨rfl, Or.inl rfl⟩, fun s' rs h => by cases h⟩
+  | some l =>
+    simp only []
+    cases l with
+    | nil => exact ⟨fun st h => by simp at h; exact Or.inl ⟨h.symm, Or.inr rfl⟩, fun s' rs h => by simp at h⟩
+    | cons x rest =>
+      simp only [List.isEmpty_cons, Bool.false_eq_true, if_false]
+      by_cases hl : (x :: rest).length ≤ limit
+      · simp only [hl, if_true]
+        refine ⟨fun st h => ?_, fun s' rs h => ⟨x :: rest, rfl, by simp, hl, ?_⟩⟩
+        · exfalso
+          -- the item loop never produces a fault
+          have : ∀ (l : List ι) (s : NS) (acc : List α) st, serveItems.go step s l acc ≠ .fault st := by
+            intro l
+            induction l with
+            | nil => intro s acc st h; simp [serveItems.go] at h
+            | cons it r ih =>
+              intro s acc st h
+              unfold serveItems.go at h
+              cases hs : step s it with
+              | none => rw [hs] at h; cases h
+              | some pr => rw [hs] at h; exact ih _ _ _ h
+          exact this _ _ _ _ h
+        · have := serveItems_go_length step (x :: rest) s s' [] rs h
+          simpa using this
+      · simp only [hl, if_false]
+        exact ⟨fun st h => by cases h; exact Or.inr ⟨rfl, _, rfl, by omega⟩, fun s' rs h => by cases h⟩
+
 end OpcuaVerif.C34
